@@ -45,7 +45,7 @@ class C02(E1Check):
         return cfgs + wide_configs(("mem", "csv"), D=1 if self.tier == "quick" else 2)
 
     def budget(self):
-        return 600 if self.tier == "quick" else 2400
+        return 600 if self.tier == "quick" else 1200
 
     def probes(self):
         if self._probes is None:
